@@ -513,7 +513,7 @@ class PipelineCorr(Corr):
         # the complete C03 accounting oracle on the same outputs
         if distinct_keys:
             idx = {(e, g): k for k, (e, g) in enumerate(map(tuple, obs["matched"]))}
-            sub = dict(obs, pairs=obs["matched"],
+            sub = dict(obs, skip_generator_check=True, pairs=obs["matched"],
                        label_ok=[False if g is None else obs["ok"][e][g] for e, g in obs["matched"]],
                        score=[None if g is None else obs["plane"][e][g] for e, g in obs["matched"]])
             del idx
